@@ -219,6 +219,8 @@ Qed.
 Lemma loads_sync : forall d, flat_map op_loads (sync_ops d) = [].
 Proof.
   intros. unfold sync_ops. rewrite !flat_map_app.
+  assert (flat_map op_loads (map (fun v => OStatic (im_iface d) (im_struct d) v) (im_statics d)) = []) as ->
+    by (induction (im_statics d); simpl; auto).
   assert (flat_map op_loads (map (fun c => OCtor (im_struct d) (fst c) (snd c)) (im_ctors d)) = []) as ->
     by (induction (im_ctors d); simpl; auto).
   destruct (im_dtor d); reflexivity.
@@ -227,64 +229,32 @@ Lemma flat_map_flat_map_nil : forall A B C (f : A -> list B) (g : B -> list C) l
   (forall a, flat_map g (f a) = []) -> flat_map g (flat_map f l) = [].
 Proof. induction l; intros; simpl; [reflexivity|]. rewrite flat_map_app, H, IHl; auto. Qed.
 
-Lemma loads_module_ops : forall fuel fs p m, flat_map op_loads (module_ops fuel fs p m) = [p].
+Lemma run_stmt_ops_loaded : forall p s t t', run_ops (import_stmt_ops p s) t = Ok t' -> loaded t' = loaded t.
+Proof. intros. apply run_loaded in H. now rewrite loads_import_stmt in H. Qed.
+Lemma run_sync_loaded : forall l t t', run_ops (flat_map sync_ops l) t = Ok t' -> loaded t' = loaded t.
+Proof. intros. apply run_loaded in H. rewrite flat_map_flat_map_nil in H by apply loads_sync. exact H. Qed.
+
+(* ---------- decidable equality of table values *)
+Definition option_eq_dec {A} (d : forall a b : A, {a = b} + {a <> b}) : forall a b : option A, {a = b} + {a <> b}.
+Proof. decide equality. Defined.
+Definition prod_eq_dec {A B} (da : forall a b : A, {a = b} + {a <> b}) (db : forall a b : B, {a = b} + {a <> b})
+  : forall a b : A * B, {a = b} + {a <> b}.
+Proof. decide equality. Defined.
+Definition member_eq_dec : forall a b : member, {a = b} + {a <> b}.
+Proof. decide equality; [apply (option_eq_dec Nat.eq_dec)|apply string_dec]. Defined.
+Definition sdef_eq_dec : forall a b : sdef, {a = b} + {a <> b}.
+Proof. decide equality; [apply (list_eq_dec member_eq_dec)|apply bool_dec]. Defined.
+Definition tval_eq_dec : forall a b : tval, {a = b} + {a <> b}.
 Proof.
-  intros. unfold module_ops. rewrite !flat_map_app.
-  rewrite flat_map_flat_map_nil by apply loads_import_stmt.
-  rewrite flat_map_flat_map_nil by apply loads_sync. reflexivity.
-Qed.
+  decide equality; try apply Nat.eq_dec; try apply string_dec; try apply bool_dec.
+  - apply sdef_eq_dec.
+  - apply (list_eq_dec string_dec).
+  - apply (option_eq_dec Nat.eq_dec).
+  - apply (list_eq_dec (prod_eq_dec string_dec Nat.eq_dec)).
+Defined.
+Definition otval_eq_dec : forall a b : option tval, {a = b} + {a <> b} := option_eq_dec tval_eq_dec.
 
-Lemma path_ops_loaded : forall fuel fs p t t',
-  run_ops (path_ops fuel fs p) t = Ok t' -> loaded t' = p :: loaded t.
-Proof.
-  intros fuel fs p t t' H. unfold path_ops in H. destruct (resolve fs p) as [m|] eqn:R.
-  - apply run_loaded in H. now rewrite loads_module_ops in H.
-  - simpl in H. discriminate.
-Qed.
-
-Lemma handle_import_marks : forall fuel fs t p t',
-  handle_import fuel fs t p = Ok t' -> mem p (loaded t') = true.
-Proof.
-  intros fuel fs t p t' H. unfold handle_import in H. destruct (mem p (loaded t)) eqn:M.
-  - now injection H as <-.
-  - apply path_ops_loaded in H. rewrite H. simpl. now rewrite String.eqb_refl.
-Qed.
-
-Lemma handle_import_mono : forall fuel fs t p t' q,
-  handle_import fuel fs t p = Ok t' -> mem q (loaded t) = true -> mem q (loaded t') = true.
-Proof.
-  intros fuel fs t p t' q H Hq. unfold handle_import in H. destruct (mem p (loaded t)) eqn:M.
-  - now injection H as <-.
-  - apply path_ops_loaded in H. rewrite H. simpl. rewrite Hq. now destruct (String.eqb q p).
-Qed.
-
-Lemma handle_import_again : forall fuel fs t p, mem p (loaded t) = true -> handle_import fuel fs t p = Ok t.
-Proof. intros. unfold handle_import. now rewrite H. Qed.
-
-(* ---------- idempotence *)
-Lemma load_twice : forall fuel fs p r t, load fuel fs (p :: p :: r) t = load fuel fs (p :: r) t.
-Proof.
-  intros. simpl. destruct (handle_import fuel fs t p) as [t'|e] eqn:H; [|reflexivity].
-  now rewrite (handle_import_again fuel fs t' p (handle_import_marks _ _ _ _ _ H)).
-Qed.
-
-Lemma load_again_gen : forall fuel fs p l2 l1 t,
-  In p l1 \/ mem p (loaded t) = true ->
-  load fuel fs (l1 ++ p :: l2) t = load fuel fs (l1 ++ l2) t.
-Proof.
-  intros fuel fs p l2. induction l1 as [|a l1 IH]; intros t H; simpl.
-  - destruct H as [[]|H]. now rewrite handle_import_again.
-  - destruct (handle_import fuel fs t a) as [t'|e] eqn:E; [|reflexivity]. apply IH.
-    destruct H as [[->|H]|H]; auto.
-    + right. eapply handle_import_marks; eauto.
-    + right. eapply handle_import_mono; eauto.
-Qed.
-
-Lemma load_again : forall fuel fs p l1 l2 t,
-  In p l1 -> load fuel fs (l1 ++ p :: l2) t = load fuel fs (l1 ++ l2) t.
-Proof. intros. apply load_again_gen. now left. Qed.
-
-(* ---------- visibility: what one import can change *)
+(* ---------- what one module writes itself *)
 Definition decl_keys (module_path : name) (d : decl) : list (tag * name) :=
   flat_map op_writes (import_decl_ops module_path d).
 
@@ -293,7 +263,8 @@ Lemma writes_sync : forall d g k,
   (g = TF /\ In k (map fst (method_binds d))) \/ (g = TD /\ k = im_struct d /\ im_dtor d <> None).
 Proof.
   intros d g k H. unfold sync_ops in H. rewrite !flat_map_app in H. rewrite !in_app_iff in H.
-  destruct H as [H|[H|H]].
+  destruct H as [H|[H|[H|H]]].
+  - exfalso. induction (im_statics d); simpl in H; auto.
   - exfalso. induction (im_ctors d); simpl in H; auto.
   - destruct (im_dtor d); simpl in H; [|tauto]. destruct H as [H|[]]. injection H as <- <-.
     right. repeat split. discriminate.
@@ -302,70 +273,341 @@ Proof.
     now apply in_map.
 Qed.
 
-Lemma writes_module_ops : forall fuel fs p m g k,
-  In (g, k) (flat_map op_writes (module_ops fuel fs p m)) ->
-  (exists d, In (SDecl true d) m /\ In (g, k) (decl_keys p d)) \/
-  (exists d, In d (parser_impls fuel fs m) /\
+(* the bindings module q (file m) can write: exported declarations, or impl blocks of its parser *)
+Definition written_by (pf : nat) (fs : fsys) (q : name) (m : module) (g : tag) (k : name) : Prop :=
+  (exists d, In (SDecl true d) m /\ In (g, k) (decl_keys q d)) \/
+  (exists d, In d (parser_impls pf fs m) /\
      ((g = TF /\ In k (map fst (method_binds d))) \/ (g = TD /\ k = im_struct d /\ im_dtor d <> None))).
+
+Lemma writes_stmt_ops : forall p e d g k,
+  In (g, k) (flat_map op_writes (import_stmt_ops p (SDecl e d))) -> e = true /\ In (g, k) (decl_keys p d).
+Proof. intros p [|] d g k H; simpl in H; [split; [reflexivity|exact H]|tauto]. Qed.
+
+Lemma writes_syncs : forall l g k, In (g, k) (flat_map op_writes (flat_map sync_ops l)) ->
+  exists d, In d l /\ ((g = TF /\ In k (map fst (method_binds d))) \/ (g = TD /\ k = im_struct d /\ im_dtor d <> None)).
 Proof.
-  intros fuel fs p m g k H. unfold module_ops in H. rewrite !flat_map_app in H. rewrite !in_app_iff in H.
-  destruct H as [H|[H|H]].
-  - left. apply in_flat_map in H. destruct H as [o [Ho Hw]].
-    apply in_flat_map in Ho. destruct Ho as [s [Hs Ho]].
-    destruct s as [q|[|] d]; simpl in Ho; try tauto.
-    exists d. split; [assumption|]. unfold decl_keys. apply in_flat_map. eauto.
-  - right. apply in_flat_map in H. destruct H as [o [Ho Hw]].
-    apply in_flat_map in Ho. destruct Ho as [d [Hd Ho]].
-    exists d. split; [assumption|]. apply writes_sync. apply in_flat_map. eauto.
-  - simpl in H. tauto.
+  intros l g k H. apply in_flat_map in H. destruct H as [o [Ho Hw]].
+  apply in_flat_map in Ho. destruct Ho as [d [Hd Ho]].
+  exists d. split; [assumption|]. apply writes_sync. apply in_flat_map. eauto.
 Qed.
 
-Lemma only_exports_visible_l : forall fuel fs t p m t' g k,
-  mem p (loaded t) = false -> resolve fs p = Some m -> handle_import fuel fs t p = Ok t' ->
-  tlookup g k t' <> tlookup g k t ->
-  (exists d, In (SDecl true d) m /\ In (g, k) (decl_keys p d)) \/
-  (exists d, In d (parser_impls fuel fs m) /\
-     ((g = TF /\ In k (map fst (method_binds d))) \/ (g = TD /\ k = im_struct d /\ im_dtor d <> None))).
+(* ====================================================================================== *)
+(* the recursive loader as a big-step relation (successful runs), for rule induction *)
+Section Loader.
+Variable pf : nat.
+Variable fs : fsys.
+
+Inductive imports : tables -> name -> tables -> Prop :=
+| imp_skip : forall t p, mem p (loaded t) = true -> imports t p t
+| imp_load : forall t p m t2 t', mem p (loaded t) = false -> resolve fs p = Some m ->
+    stmts p (mark_loaded p t) m t2 ->
+    run_ops (flat_map sync_ops (parser_impls pf fs m)) t2 = Ok t' -> imports t p t'
+with stmts : name -> tables -> module -> tables -> Prop :=
+| st_nil : forall p t, stmts p t [] t
+| st_import : forall p t q r ta t2, imports t q ta -> stmts p ta r t2 -> stmts p t (SImport q :: r) t2
+| st_decl : forall p t e d r ta t2, run_ops (import_stmt_ops p (SDecl e d)) t = Ok ta ->
+    stmts p ta r t2 -> stmts p t (SDecl e d :: r) t2.
+
+Scheme imports_min := Minimality for imports Sort Prop
+  with stmts_min := Minimality for stmts Sort Prop.
+Combined Scheme loader_ind from imports_min, stmts_min.
+
+Lemma run_stmts_sound : forall imp p,
+  (forall t q t', imp t q = Ok t' -> imports t q t') ->
+  forall l t t', run_stmts imp p l t = Ok t' -> stmts p t l t'.
 Proof.
-  intros fuel fs t p m t' g k M R H Hc. unfold handle_import in H. rewrite M in H.
-  unfold path_ops in H. rewrite R in H. eapply writes_module_ops. eapply run_changed; eauto.
+  intros imp p Himp. induction l as [|s l IH]; intros t t' H.
+  - injection H as <-. constructor.
+  - destruct s as [q|e d]; cbn [run_stmts] in H.
+    + destruct (imp t q) as [ta|] eqn:E; [|discriminate]. econstructor; eauto.
+    + destruct (run_ops (import_stmt_ops p (SDecl e d)) t) as [ta|] eqn:E; [|discriminate]. econstructor; eauto.
 Qed.
 
-Lemma exports_become_visible_l : forall fuel fs t p m t' d g k,
-  mem p (loaded t) = false -> resolve fs p = Some m -> handle_import fuel fs t p = Ok t' ->
-  In (SDecl true d) m -> In (g, k) (decl_keys p d) -> tlookup g k t' <> None.
+Lemma handle_import_sound : forall fuel t p t', handle_import fuel pf fs t p = Ok t' -> imports t p t'.
 Proof.
-  intros fuel fs t p m t' d g k M R H Hd Hk. unfold handle_import in H. rewrite M in H.
-  unfold path_ops in H. rewrite R in H. eapply run_defines; eauto.
-  unfold module_ops. rewrite flat_map_app. apply in_app_iff. left.
-  apply in_flat_map. unfold decl_keys in Hk. apply in_flat_map in Hk. destruct Hk as [o [Ho Hw]].
-  exists o. split; [|assumption]. apply in_flat_map. exists (SDecl true d). auto.
+  induction fuel as [|f IH]; intros t p t' H; simpl in H.
+  - destruct (mem p (loaded t)) eqn:M; [|discriminate]. injection H as <-. now constructor.
+  - destruct (mem p (loaded t)) eqn:M.
+    + injection H as <-. now constructor.
+    + destruct (resolve fs p) as [m|] eqn:R; [|discriminate].
+      destruct (run_stmts (handle_import f pf fs) p m (mark_loaded p t)) as [t2|] eqn:E; [|discriminate].
+      eapply imp_load; eauto. eapply run_stmts_sound; eauto.
 Qed.
 
-(* a module that is already loaded changes nothing at all *)
-Lemma loaded_import_changes_nothing : forall fuel fs t p t',
-  mem p (loaded t) = true -> handle_import fuel fs t p = Ok t' -> t' = t.
+(* ---------- monotonicity: loaded modules stay loaded, bindings stay bound, the module is marked *)
+Lemma mono_keeps :
+  (forall t p t', imports t p t' ->
+     (forall q, mem q (loaded t) = true -> mem q (loaded t') = true) /\ mem p (loaded t') = true /\
+     (forall g k, tlookup g k t <> None -> tlookup g k t' <> None)) /\
+  (forall p t l t', stmts p t l t' ->
+     (forall q, mem q (loaded t) = true -> mem q (loaded t') = true) /\
+     (forall g k, tlookup g k t <> None -> tlookup g k t' <> None)).
+Proof.
+  apply loader_ind.
+  - intros t p M. auto.
+  - intros t p m t2 t' M R _ [IH1 IH2] Hs.
+    pose proof (run_sync_loaded _ _ _ Hs) as L.
+    split; [|split].
+    + intros q Hq. rewrite L. apply IH1. simpl. rewrite Hq. now destruct (String.eqb q p).
+    + rewrite L. apply IH1. simpl. now rewrite String.eqb_refl.
+    + intros g k Hd. eapply run_keeps; eauto.
+  - intros. auto.
+  - intros p t q r ta t2 _ [I1 [_ I3]] _ [S1 S2]. split; auto.
+  - intros p t e d r ta t2 Hr _ [S1 S2]. split.
+    + intros q Hq. apply S1. now rewrite (run_stmt_ops_loaded _ _ _ _ Hr).
+    + intros g k Hd. apply S2. eapply run_keeps; eauto.
+Qed.
+
+Lemma imports_mono : forall t p t' q, imports t p t' -> mem q (loaded t) = true -> mem q (loaded t') = true.
+Proof. intros t p t' q H. apply (proj1 mono_keeps) in H. destruct H as [H _]. auto. Qed.
+Lemma imports_marks : forall t p t', imports t p t' -> mem p (loaded t') = true.
+Proof. intros t p t' H. apply (proj1 mono_keeps) in H. tauto. Qed.
+Lemma imports_keeps : forall t p t' g k, imports t p t' -> tlookup g k t <> None -> tlookup g k t' <> None.
+Proof. intros t p t' g k H. apply (proj1 mono_keeps) in H. destruct H as [_ [_ H]]. auto. Qed.
+Lemma stmts_mono : forall p t l t' q, stmts p t l t' -> mem q (loaded t) = true -> mem q (loaded t') = true.
+Proof. intros p t l t' q H. apply (proj2 mono_keeps) in H. destruct H as [H _]. auto. Qed.
+Lemma stmts_keeps : forall p t l t' g k, stmts p t l t' -> tlookup g k t <> None -> tlookup g k t' <> None.
+Proof. intros p t l t' g k H. apply (proj2 mono_keeps) in H. destruct H as [_ H]. auto. Qed.
+
+(* ---------- every newly loaded module is complete: its own imports are loaded, its exports bound *)
+Definition complete (q : name) (t : tables) : Prop :=
+  exists m, resolve fs q = Some m /\
+    (forall r, In (SImport r) m -> mem r (loaded t) = true) /\
+    (forall d g k, In (SDecl true d) m -> In (g, k) (decl_keys q d) -> tlookup g k t <> None).
+
+Lemma complete_imports : forall q t p t', imports t p t' -> complete q t -> complete q t'.
+Proof.
+  intros q t p t' H [m [R [C1 C2]]]. exists m. repeat split; auto.
+  - intros r Hr. eapply imports_mono; eauto.
+  - intros d g k Hd Hk. eapply imports_keeps; eauto.
+Qed.
+Lemma complete_stmts : forall q p t l t', stmts p t l t' -> complete q t -> complete q t'.
+Proof.
+  intros q p t l t' H [m [R [C1 C2]]]. exists m. repeat split; auto.
+  - intros r Hr. eapply stmts_mono; eauto.
+  - intros d g k Hd Hk. eapply stmts_keeps; eauto.
+Qed.
+Lemma complete_run : forall q ops t t', run_ops ops t = Ok t' -> loaded t' = loaded t -> complete q t -> complete q t'.
+Proof.
+  intros q ops t t' H L [m [R [C1 C2]]]. exists m. repeat split; auto.
+  - intros r Hr. rewrite L. auto.
+  - intros d g k Hd Hk. eapply run_keeps; eauto.
+Qed.
+
+Lemma newly_loaded_complete :
+  (forall t p t', imports t p t' ->
+     forall q, mem q (loaded t) = false -> mem q (loaded t') = true -> complete q t') /\
+  (forall p t l t', stmts p t l t' ->
+     (forall q, mem q (loaded t) = false -> mem q (loaded t') = true -> complete q t') /\
+     (forall r, In (SImport r) l -> mem r (loaded t') = true) /\
+     (forall d g k, In (SDecl true d) l -> In (g, k) (decl_keys p d) -> tlookup g k t' <> None)).
+Proof.
+  apply loader_ind.
+  - intros t p M q H1 H2. congruence.
+  - intros t p m t2 t' M R Hst [I1 [I2 I3]] Hs q H1 H2.
+    pose proof (run_sync_loaded _ _ _ Hs) as L.
+    destruct (String.eqb_spec q p) as [->|N].
+    + exists m. repeat split; auto.
+      * intros r Hr. rewrite L. auto.
+      * intros d g k Hd Hk. eapply run_keeps; eauto.
+    + eapply complete_run; eauto. apply I1.
+      * simpl. apply String.eqb_neq in N. now rewrite N.
+      * now rewrite <- L.
+  - intros p t. repeat split; intros; simpl in *; try tauto. congruence.
+  - intros p t q r ta t2 Hi I Hs [S1 [S2 S3]]. repeat split.
+    + intros x H1 H2. destruct (mem x (loaded ta)) eqn:E.
+      * eapply complete_stmts; eauto.
+      * auto.
+    + intros x [Hx|Hx]; [injection Hx as <-|auto]. eapply stmts_mono; eauto. eapply imports_marks; eauto.
+    + intros d g k [Hd|Hd]; [discriminate|]. eauto.
+  - intros p t e d r ta t2 Hr Hs [S1 [S2 S3]].
+    pose proof (run_stmt_ops_loaded _ _ _ _ Hr) as L. repeat split.
+    + intros x H1 H2. apply S1; auto. now rewrite L.
+    + intros x [Hx|Hx]; [discriminate|auto].
+    + intros d0 g k [Hd|Hd] Hk; [|eauto]. injection Hd as -> ->.
+      eapply stmts_keeps; eauto. eapply run_defines; eauto.
+Qed.
+
+(* ---------- a changed binding was written by a newly loaded module *)
+Definition by_new (t t' : tables) (g : tag) (k : name) : Prop :=
+  exists q m, mem q (loaded t) = false /\ mem q (loaded t') = true /\ resolve fs q = Some m /\ written_by pf fs q m g k.
+
+Lemma changed_by_new :
+  (forall t p t', imports t p t' -> forall g k, tlookup g k t' <> tlookup g k t -> by_new t t' g k) /\
+  (forall p t l t', stmts p t l t' -> forall g k, tlookup g k t' <> tlookup g k t ->
+     by_new t t' g k \/ (exists d, In (SDecl true d) l /\ In (g, k) (decl_keys p d))).
+Proof.
+  apply loader_ind.
+  - intros t p M g k H. congruence.
+  - intros t p m t2 t' M R Hst IH Hs g k H.
+    pose proof (run_sync_loaded _ _ _ Hs) as L.
+    assert (Hp : mem p (loaded t') = true).
+    { rewrite L. eapply stmts_mono; eauto. simpl. now rewrite String.eqb_refl. }
+    destruct (otval_eq_dec (tlookup g k t') (tlookup g k t2)) as [E|N].
+    + rewrite E in H. assert (H' : tlookup g k t2 <> tlookup g k (mark_loaded p t)) by (destruct g; exact H).
+      destruct (IH g k H') as [[q [mq [Q1 [Q2 [Q3 Q4]]]]]|[d [Hd Hk]]].
+      * exists q, mq. repeat split; auto.
+        -- simpl in Q1. destruct (String.eqb q p); [discriminate|exact Q1].
+        -- now rewrite L.
+      * exists p, m. repeat split; auto. left. eauto.
+    + exists p, m. repeat split; auto. right.
+      apply writes_syncs. eapply run_changed; eauto.
+  - intros p t g k H. congruence.
+  - intros p t q r ta t2 Hi I Hs S g k H.
+    destruct (otval_eq_dec (tlookup g k t2) (tlookup g k ta)) as [E|N].
+    + rewrite E in H. destruct (I g k H) as [x [mx [Q1 [Q2 [Q3 Q4]]]]]. left.
+      exists x, mx. repeat split; auto. eapply stmts_mono; eauto.
+    + destruct (S g k N) as [[x [mx [Q1 [Q2 [Q3 Q4]]]]]|[d [Hd Hk]]].
+      * left. exists x, mx. repeat split; auto.
+        destruct (mem x (loaded t)) eqn:E; [|reflexivity].
+        rewrite (imports_mono _ _ _ _ Hi E) in Q1. discriminate.
+      * right. exists d. split; [now right|assumption].
+  - intros p t e d r ta t2 Hr Hs S g k H.
+    pose proof (run_stmt_ops_loaded _ _ _ _ Hr) as L.
+    destruct (otval_eq_dec (tlookup g k t2) (tlookup g k ta)) as [E|N].
+    + rewrite E in H. right. apply (run_changed _ _ _ _ _ Hr) in H.
+      apply writes_stmt_ops in H. destruct H as [-> Hk]. exists d. split; [now left|assumption].
+    + destruct (S g k N) as [[x [mx [Q1 [Q2 [Q3 Q4]]]]]|[d0 [Hd Hk]]].
+      * left. exists x, mx. repeat split; auto. now rewrite <- L.
+      * right. exists d0. split; [now right|assumption].
+Qed.
+
+End Loader.
+
+(* ---------- statements about the executable loader *)
+Lemma handle_import_again : forall fuel pf fs t p, mem p (loaded t) = true -> handle_import fuel pf fs t p = Ok t.
+Proof. intros. destruct fuel; simpl; now rewrite H. Qed.
+
+Lemma handle_import_marks : forall fuel pf fs t p t',
+  handle_import fuel pf fs t p = Ok t' -> mem p (loaded t') = true.
+Proof. intros. eapply imports_marks. eapply handle_import_sound; eauto. Qed.
+
+Lemma handle_import_mono : forall fuel pf fs t p t' q,
+  handle_import fuel pf fs t p = Ok t' -> mem q (loaded t) = true -> mem q (loaded t') = true.
+Proof. intros. eapply imports_mono; eauto. eapply handle_import_sound; eauto. Qed.
+
+(* ---------- idempotence *)
+Lemma load_twice : forall fuel pf fs p r t, load fuel pf fs (p :: p :: r) t = load fuel pf fs (p :: r) t.
+Proof.
+  intros. simpl. destruct (handle_import fuel pf fs t p) as [t'|e] eqn:H; [|reflexivity].
+  now rewrite (handle_import_again fuel pf fs t' p (handle_import_marks _ _ _ _ _ _ H)).
+Qed.
+
+Lemma load_again_gen : forall fuel pf fs p l2 l1 t,
+  In p l1 \/ mem p (loaded t) = true ->
+  load fuel pf fs (l1 ++ p :: l2) t = load fuel pf fs (l1 ++ l2) t.
+Proof.
+  intros fuel pf fs p l2. induction l1 as [|a l1 IH]; intros t H; simpl.
+  - destruct H as [[]|H]. now rewrite handle_import_again.
+  - destruct (handle_import fuel pf fs t a) as [t'|e] eqn:E; [|reflexivity]. apply IH.
+    destruct H as [[->|H]|H]; auto.
+    + right. eapply handle_import_marks; eauto.
+    + right. eapply handle_import_mono; eauto.
+Qed.
+
+Lemma load_again : forall fuel pf fs p l1 l2 t,
+  In p l1 -> load fuel pf fs (l1 ++ p :: l2) t = load fuel pf fs (l1 ++ l2) t.
+Proof. intros. apply load_again_gen. now left. Qed.
+
+Lemma loaded_import_changes_nothing : forall fuel pf fs t p t',
+  mem p (loaded t) = true -> handle_import fuel pf fs t p = Ok t' -> t' = t.
 Proof. intros. rewrite handle_import_again in H0 by assumption. now injection H0. Qed.
 
+(* ---------- visibility *)
+Lemma only_exports_visible_l : forall fuel pf fs t p t' g k,
+  handle_import fuel pf fs t p = Ok t' -> tlookup g k t' <> tlookup g k t ->
+  exists q m, mem q (loaded t) = false /\ mem q (loaded t') = true /\ resolve fs q = Some m /\
+              written_by pf fs q m g k.
+Proof. intros. eapply (proj1 (changed_by_new pf fs)); eauto. eapply handle_import_sound; eauto. Qed.
+
+Lemma loaded_modules_complete_l : forall fuel pf fs t p t' q,
+  handle_import fuel pf fs t p = Ok t' -> mem q (loaded t) = false -> mem q (loaded t') = true ->
+  exists m, resolve fs q = Some m /\
+    (forall r, In (SImport r) m -> mem r (loaded t') = true) /\
+    (forall d g k, In (SDecl true d) m -> In (g, k) (decl_keys q d) -> tlookup g k t' <> None).
+Proof. intros. eapply (proj1 (newly_loaded_complete pf fs)); eauto. eapply handle_import_sound; eauto. Qed.
+
+Lemma exports_become_visible_l : forall fuel pf fs t p m t' d g k,
+  mem p (loaded t) = false -> resolve fs p = Some m -> handle_import fuel pf fs t p = Ok t' ->
+  In (SDecl true d) m -> In (g, k) (decl_keys p d) -> tlookup g k t' <> None.
+Proof.
+  intros fuel pf fs t p m t' d g k M R H Hd Hk.
+  destruct (loaded_modules_complete_l _ _ _ _ _ _ p H M (handle_import_marks _ _ _ _ _ _ H)) as [m' [R' [_ C]]].
+  rewrite R in R'. injection R' as <-. eauto.
+Qed.
+
+(* the imports of an imported module are loaded with it, and what they export is bound *)
+Lemma transitive_imports_loaded_l : forall fuel pf fs t p m t' r,
+  mem p (loaded t) = false -> resolve fs p = Some m -> handle_import fuel pf fs t p = Ok t' ->
+  In (SImport r) m -> mem r (loaded t') = true.
+Proof.
+  intros fuel pf fs t p m t' r M R H Hr.
+  destruct (loaded_modules_complete_l _ _ _ _ _ _ p H M (handle_import_marks _ _ _ _ _ _ H)) as [m' [R' [C _]]].
+  rewrite R in R'. injection R' as <-. auto.
+Qed.
+
 (* readable instance of only_exports_visible_l for functions *)
-Lemma hidden_function_l : forall fuel fs t p m t' n,
-  mem p (loaded t) = false -> resolve fs p = Some m -> handle_import fuel fs t p = Ok t' ->
-  (forall n0 b, In (SDecl true (DFunc n0 b)) m -> n <> n0 /\ n <> qualified p n0) ->
-  (forall d, In d (parser_impls fuel fs m) -> ~ In n (map fst (method_binds d))) ->
+Lemma hidden_function_l : forall fuel pf fs t p t' n,
+  handle_import fuel pf fs t p = Ok t' ->
+  (forall q m, mem q (loaded t) = false -> mem q (loaded t') = true -> resolve fs q = Some m ->
+     (forall n0 b, In (SDecl true (DFunc n0 b)) m -> n <> n0 /\ n <> qualified q n0) /\
+     (forall d, In d (parser_impls pf fs m) -> ~ In n (map fst (method_binds d)))) ->
   lookup n (funcs t') = lookup n (funcs t).
 Proof.
-  intros fuel fs t p m t' n M R H Hn Hi.
+  intros fuel pf fs t p t' n H Hn.
   assert (Dec : forall a b : option nat, {a = b} + {a <> b}) by (decide equality; apply Nat.eq_dec).
   destruct (Dec (lookup n (funcs t')) (lookup n (funcs t))) as [E|N]; [exact E|exfalso].
   assert (C : tlookup TF n t' <> tlookup TF n t).
   { simpl. intro C. apply N. destruct (lookup n (funcs t')), (lookup n (funcs t)); simpl in C; congruence. }
-  destruct (only_exports_visible_l _ _ _ _ _ _ _ _ M R H C) as [[d [Hd Hk]]|[d [Hd [[_ Hk]|[Hg _]]]]].
+  destruct (only_exports_visible_l _ _ _ _ _ _ _ _ H C) as [q [m [Q1 [Q2 [Q3 W]]]]].
+  destruct (Hn q m Q1 Q2 Q3) as [Hf Hi].
+  destruct W as [[d [Hd Hk]]|[d [Hd [[_ Hk]|[Hg _]]]]].
   - destruct d; unfold decl_keys in Hk; simpl in Hk; try tauto;
       try (destruct Hk as [Hk|[]]; discriminate).
-    + destruct (Hn _ _ Hd) as [N1 N2].
+    + destruct (Hf _ _ Hd) as [N1 N2].
       destruct Hk as [Hk|[Hk|[]]]; injection Hk as Hk; congruence.
     + destruct is_const, init; simpl in Hk; try tauto;
         repeat (destruct Hk as [Hk|Hk]; [discriminate|]); tauto.
   - exact (Hi d Hd Hk).
   - discriminate.
+Qed.
+
+(* ---------- the recursion bound: a result that is not "bound exhausted" is final *)
+Definition no_depth (r : result) : Prop := match r with Err (EDepth _) => False | _ => True end.
+
+Lemma run_stmts_more : forall (imp imp' : tables -> name -> result) p,
+  (forall t q, no_depth (imp t q) -> imp' t q = imp t q) ->
+  forall l t, no_depth (run_stmts imp p l t) -> run_stmts imp' p l t = run_stmts imp p l t.
+Proof.
+  intros imp imp' p H. induction l as [|s l IH]; intros t N; [reflexivity|].
+  destruct s as [q|e d]; cbn [run_stmts] in *.
+  - destruct (imp t q) as [ta|er] eqn:E.
+    + rewrite H by (rewrite E; exact I). rewrite E. now apply IH.
+    + rewrite H by (rewrite E; exact N). now rewrite E.
+  - destruct (run_ops (import_stmt_ops p (SDecl e d)) t); [now apply IH|reflexivity].
+Qed.
+
+Lemma handle_import_S : forall f pf fs t p,
+  handle_import (S f) pf fs t p =
+  if mem p (loaded t) then Ok t
+  else match resolve fs p with
+       | None => Err (EOpen p (file_path_of p))
+       | Some m => match run_stmts (handle_import f pf fs) p m (mark_loaded p t) with
+                   | Ok t2 => run_ops (flat_map sync_ops (parser_impls pf fs m)) t2
+                   | Err e => Err e
+                   end
+       end.
+Proof. reflexivity. Qed.
+
+Lemma fuel_monotone : forall fuel pf fs t p,
+  no_depth (handle_import fuel pf fs t p) -> handle_import (S fuel) pf fs t p = handle_import fuel pf fs t p.
+Proof.
+  induction fuel as [|f IH]; intros pf fs t p N.
+  - simpl in *. destruct (mem p (loaded t)); [reflexivity|destruct N].
+  - rewrite (handle_import_S (S f)). rewrite (handle_import_S f) in *.
+    destruct (mem p (loaded t)); [reflexivity|].
+    destruct (resolve fs p) as [m|]; [|reflexivity].
+    rewrite (run_stmts_more (handle_import f pf fs) (handle_import (S f) pf fs) p); [reflexivity| |].
+    + intros t0 q N0. now apply IH.
+    + destruct (run_stmts (handle_import f pf fs) p m (mark_loaded p t)); [exact I|exact N].
 Qed.
